@@ -4,7 +4,7 @@ From Verif Require Import Strop.
 Open Scope N_scope.
 
 Lemma strop_is_pipeline u sp cfg ty tok :
-  strop u sp cfg ty tok = run_pipeline u sp cfg (model_pipeline (sc_reverify cfg)) ty tok.
+  strop u sp cfg ty tok = run_pipeline u sp cfg (model_pipeline (sc_reverify cfg) (sc_full_check cfg)) ty tok.
 Proof.
   unfold strop, run_pipeline. destruct (str_eqb (lower ty) ty_all); [reflexivity|].
   unfold model_pipeline. cbn [app run_steps xf hof].
@@ -18,5 +18,38 @@ Proof.
   unfold reverified.
   destruct (dry_ok (do_for_type_and_all (strop_by_pattern u cfg) s3 (lower ty) true));
     destruct (dry_ok (do_for_type_and_all (strop_by_keyword cfg) s3 (lower ty) true));
-    destruct (dry_ok (do_for_type_and_all (encode u sp cfg) s3 (lower ty) true)); reflexivity.
+    destruct (dry_ok (do_for_type_and_all (encode u sp cfg) s3 (lower ty) true));
+    destruct (negb (sc_full_check cfg) || full_ok u cfg (lower ty) s3); reflexivity.
+Qed.
+
+(* the whole-token loop is one more filter on what the tree without it returns *)
+Lemma strop_no_full u sp cfg ty s :
+  strop u sp cfg ty s =
+  match strop u sp (no_full cfg) ty s with
+  | Ok t => if negb (sc_reverify cfg) || negb (sc_full_check cfg) || full_ok u cfg (lower ty) t then Ok t else ErrRuntime
+  | e => e
+  end.
+Proof.
+  unfold strop.
+  change (encode u sp (no_full cfg)) with (encode u sp cfg).
+  change (strop_by_keyword (no_full cfg)) with (strop_by_keyword cfg).
+  change (strop_by_pattern u (no_full cfg)) with (strop_by_pattern u cfg).
+  change (sc_strop_handler (no_full cfg)) with (sc_strop_handler cfg).
+  change (sc_enc_handler (no_full cfg)) with (sc_enc_handler cfg).
+  change (sc_reverify (no_full cfg)) with (sc_reverify cfg).
+  destruct (str_eqb (lower ty) ty_all); [reflexivity|].
+  destruct (do_for_type_and_all (encode u sp cfg) s (lower ty) false) as [e| |]; try reflexivity.
+  destruct (do_for_type_and_all (strop_by_keyword cfg) e (lower ty) false) as [k| |]; try reflexivity.
+  destruct (do_for_type_and_all (strop_by_pattern u cfg) k (lower ty) false) as [p| |]; try reflexivity.
+  destruct (checked _ (sc_strop_handler cfg) p) as [s1| |]; try reflexivity.
+  destruct (checked _ (sc_strop_handler cfg) s1) as [s2| |]; try reflexivity.
+  destruct (checked _ (sc_enc_handler cfg) s2) as [s3| |]; try reflexivity.
+  destruct (sc_reverify cfg); [|reflexivity]. unfold reverified.
+  change (encode u sp (no_full cfg)) with (encode u sp cfg).
+  change (strop_by_keyword (no_full cfg)) with (strop_by_keyword cfg).
+  change (strop_by_pattern u (no_full cfg)) with (strop_by_pattern u cfg).
+  change (sc_full_check (no_full cfg)) with false.
+  destruct (dry_ok (do_for_type_and_all (strop_by_pattern u cfg) s3 (lower ty) true));
+    destruct (dry_ok (do_for_type_and_all (strop_by_keyword cfg) s3 (lower ty) true));
+    destruct (dry_ok (do_for_type_and_all (encode u sp cfg) s3 (lower ty) true)); cbn [andb negb orb]; try reflexivity.
 Qed.
